@@ -132,6 +132,15 @@ def tables_for(case):
         m2 = rng.random(shape) < 0.15
         A[m2] = rng.integers(max(0, umax - 40), umax + 1, int(m2.sum())).astype(dt)
         return A, B
+    if pat == "few-distinct":
+        umax = UMAX[kind]
+        nr = case["cfg"]["num_reserved"]
+        vals_a = rng.integers(nr + 1, umax, 3)
+        vals_b = rng.integers(nr + 1, umax, 3)
+        shape = (64, 2048)
+        A = vals_a[rng.integers(0, 3, shape)].astype(dt)
+        B = vals_b[rng.integers(0, 3, shape)].astype(dt)
+        return A, B
     if pat == "slab":
         # rows a0..a0+rows-1 of the full 65536 x 65536 pair space
         a0, rows = case["a0"], case["rows"]
@@ -242,6 +251,9 @@ def gen_cases(ctx):
         # odd shapes: cell counts that are not multiples of 8/16/64
         cases.append({"type": "table", "kind": kind, "cfg": {"max_count": mc, "num_reserved": nr}, "pattern": "sampled-pairs",
                       "seed": int(rng.integers(0, 2**31)), "rows": pick(rng, [7, 1, 33]), "cols": pick(rng, [1001, 17, 257])})
+    for rep in range(3):
+        for kind, (mc, nr) in (("log8", (2**32 - 1, 15)), ("log16", (2**32 - 1, 1023))):
+            cases.append({"type": "table", "kind": kind, "cfg": {"max_count": mc, "num_reserved": nr}, "pattern": "few-distinct", "seed": int(rng.integers(0, 2**31))})
     for kind, mc, nr in F4_REGION:
         c = {"max_count": mc, "num_reserved": nr}
         if kind == "log8":
